@@ -27,8 +27,9 @@ type witness struct {
 }
 
 type worker struct {
-	ms *move.Store
-	lc *ev.Local
+	ms    *move.Store
+	lc    *ev.Local
+	reuse board.Board // loaded again and again with ParseFEN, the way the tuner loads positions
 }
 
 // checkPos compares the engine's playable moves on b (which must represent p) with the reference.
@@ -143,6 +144,14 @@ func TestCheck(t *testing.T) {
 					continue
 				}
 				checkPos(r, w, &p, b, witness{Kind: "loaded-" + s.name, FEN: fen})
+				// the allocation-free loader into a board that held another position before
+				if err := board.ParseFEN(&w.reuse, []byte(fen)); err != nil {
+					r.Violation("C01:parsefen-rejects-valid", witness{Kind: s.name, FEN: fen}, err.Error())
+				} else {
+					w.reuse.ResetHash()
+					checkPos(r, w, &p, &w.reuse, witness{Kind: "parsed-into-reused-board-" + s.name, FEN: fen})
+					w.lc.C["positions_parsed_into_reused_board"]++
+				}
 				w.lc.C["positions_"+s.name]++
 				if k == 0 && i%40 == 0 {
 					r.Sample(map[string]any{"source": s.name, "fen": fen, "legal_moves": len(p.Legal())})
@@ -271,7 +280,7 @@ func TestCheck(t *testing.T) {
 		}
 	}
 	r.Finish("in_check", "double_check", "with_castling", "with_en_passant", "with_promotion", "with_underpromotion", "with_pinned_piece",
-		"no_legal_move", "positions_reached", "positions_reloaded", "perft_compared", "uci_perft_compared", "positions_small_exhaustive")
+		"no_legal_move", "positions_reached", "positions_reloaded", "perft_compared", "uci_perft_compared", "positions_small_exhaustive", "positions_parsed_into_reused_board")
 }
 
 func replay(t *testing.T, r *ev.Run) {
